@@ -54,6 +54,36 @@ var shapes = []shape{
 	{"kt", []string{"k", "ts"}, true, false},
 	{"t", []string{"ts"}, true, false},
 	{"k", []string{"k"}, false, false},
+	// keys from value families whose members are DISTINCT group keys but hash alike in
+	// octosql.Value.hash (NULL / Int 0 / Float 0.0 / false all feed 0; structs hash nothing):
+	// the columns n, u, st are functions of k (see derivedKey), so these group like k does
+	{"n", []string{"n"}, false, false},
+	{"tn", []string{"ts", "n"}, true, false},
+	{"u", []string{"u"}, false, false},
+	{"tu", []string{"ts", "u"}, true, false},
+	{"st", []string{"st"}, false, false},
+	{"nk", []string{"n", "k"}, false, false},
+}
+
+var structType = octosql.Type{TypeID: octosql.TypeIDStruct, Struct: struct{ Fields []octosql.StructField }{Fields: []octosql.StructField{{Name: "x", Type: octosql.Int}}}}
+
+// derivedKey: the value of key column col for the record whose string key is k ('a'..'d').
+// n: NULL, 0, 1, 2 (nullable Int); u: NULL, Int 0, Float 0.0, false (union); st: {x: 1..4}.
+func derivedKey(col, k string) octosql.Value {
+	i := int(k[0] - 'a')
+	switch col {
+	case "k":
+		return octosql.NewString(k)
+	case "n":
+		if i == 0 {
+			return octosql.NewNull()
+		}
+		return octosql.NewInt(int64(i - 1))
+	case "u":
+		return []octosql.Value{octosql.NewNull(), octosql.NewInt(0), octosql.NewFloat(0), octosql.NewBoolean(false)}[i%4]
+	default:
+		return octosql.NewStruct([]octosql.Value{octosql.NewInt(int64(i + 1))})
+	}
 }
 
 func (sh shape) sql(cfg trigh.Config) string {
@@ -69,6 +99,9 @@ var tableFields = []physical.SchemaField{
 	{Name: "ts", Type: octosql.Time},
 	{Name: "k", Type: octosql.String},
 	{Name: "v", Type: octosql.TypeSum(octosql.Int, octosql.Null)},
+	{Name: "n", Type: octosql.TypeSum(octosql.Int, octosql.Null)},
+	{Name: "u", Type: octosql.TypeSum(octosql.TypeSum(octosql.Int, octosql.Float), octosql.TypeSum(octosql.Boolean, octosql.Null))},
+	{Name: "st", Type: structType},
 }
 
 type row struct {
@@ -132,7 +165,7 @@ func toEvents(evs []ev) []nodeh.Event {
 		if e.r.v != nil {
 			v = octosql.NewInt(int64(*e.r.v))
 		}
-		out[i] = nodeh.Rec([]octosql.Value{octosql.NewTime(t), octosql.NewString(e.r.k), v}, e.retr, t)
+		out[i] = nodeh.Rec([]octosql.Value{octosql.NewTime(t), octosql.NewString(e.r.k), v, derivedKey("n", e.r.k), derivedKey("u", e.r.k), derivedKey("st", e.r.k)}, e.retr, t)
 	}
 	return out
 }
@@ -161,7 +194,7 @@ func genStream(rng *rand.Rand, n int, locMode int, nullMode int) []ev {
 		}
 		return nil
 	}
-	nKeys := 2 + rng.Intn(2)
+	nKeys := 2 + rng.Intn(3)
 	// nullMode 1: one key whose v is NULL in every record (a NULL-only group next to normal
 	// ones: count(*) counts, count(v)/sum/min/max are NULL), more NULLs elsewhere, and groups
 	// that lost a row are refilled with NULL-valued records
@@ -262,8 +295,8 @@ func reference(sh shape, evs []ev) (nodeh.Multiset, map[string]string) {
 		for _, col := range sh.keys {
 			if col == "ts" {
 				gid += fmt.Sprintf("t%d|", key.tick)
-			} else {
-				gid += "k" + key.k + "|"
+			} else if col == "k" || col == "n" || col == "u" || col == "st" {
+				gid += "k" + key.k + "|" // n, u, s are injective functions of k
 			}
 		}
 		gr := groups[gid]
@@ -294,7 +327,7 @@ func reference(sh shape, evs []ev) (nodeh.Multiset, map[string]string) {
 			if col == "ts" {
 				vals = append(vals, octosql.NewTime(trigh.Tick(gr.tick)))
 			} else {
-				vals = append(vals, octosql.NewString(gr.k))
+				vals = append(vals, derivedKey(col, gr.k))
 			}
 		}
 		kk := nodeh.RowKey(vals)
@@ -331,7 +364,7 @@ func collidingGroups(sh shape, evs []ev) map[string]bool {
 				vals = append(vals, octosql.NewTime(trigh.Tick(e.r.tick)))
 				hasT = true
 			} else {
-				vals = append(vals, octosql.NewString(e.r.k))
+				vals = append(vals, derivedKey(col, e.r.k))
 			}
 		}
 		if !hasT {
@@ -841,6 +874,10 @@ func Run(c *core.Ctx) core.FinishOpts {
 			{r(1, "n", nil, false), r(1, "a", &three, false), r(1, "n", nil, false), {isWM: true, wm: 1}, r(2, "n", nil, false), r(2, "a", &four, false), r(2, "n", nil, false), r(2, "n", nil, true)},
 			{r(1, "a", &five, false), r(1, "a", &five, true), r(1, "a", nil, false), r(1, "a", nil, false), r(1, "a", nil, false), r(1, "a", nil, false)},
 		}
+		// (3) distinct keys that hash alike (n: NULL/0, u: NULL/0/0.0/false, s: structs), each
+		// later key with an odd number of records so that it still has un-emitted changes when
+		// several triggers flush at the end
+		ws = append(ws, []ev{r(1, "a", &two, false), r(1, "b", &three, false), r(1, "b", &four, false), r(1, "b", &five, false), r(1, "c", &two, false), r(1, "d", &three, false), r(1, "d", &three, false), r(1, "d", &five, false), {isWM: true, wm: 1}, r(2, "b", &two, false), r(2, "a", &four, false), r(2, "a", &four, false), r(2, "c", &five, false), r(2, "c", &five, false), r(2, "c", &two, false)})
 		for wi, w := range ws {
 			for _, sh0 := range shapes {
 				for _, noStar := range []bool{false, true} {
@@ -862,14 +899,17 @@ func Run(c *core.Ctx) core.FinishOpts {
 	for s := 0; s < nStreams; s++ {
 		var sh shape
 		switch r := rng.Intn(20); {
-		case r < 10:
+		case r < 7:
 			sh = shapes[0]
-		case r < 14:
+		case r < 9:
 			sh = shapes[1]
-		case r < 17:
+		case r < 11:
 			sh = shapes[2]
-		default:
+		case r < 12:
 			sh = shapes[3]
+		default:
+			// keys from the hash-alike value families: n, tn, tn, u, tu, tu, s, nk
+			sh = shapes[[]int{4, 5, 5, 6, 7, 7, 8, 9}[r-12]]
 		}
 		locMode := []int{0, 1, 1, 2, 2}[rng.Intn(5)]
 		nullMode := s % 2 // every second stream carries NULL-only groups and NULL refills
